@@ -15,9 +15,9 @@ PROTO_SCENARIOS = [
     ("reusable_storage_mtsafe", ["storage"]),
     ("generator", ["generator"]),
 ]
-CLASS_SCENARIOS = {"queue": ["queue", "generator"], "limited_queue": ["queue"], "thread_pool": ["pool"],
+CLASS_SCENARIOS = {"queue": ["queue", "generator"], "limited_queue": ["queue"], "thread_pool": ["pool", "pool_double_stop"],
                    "scheduler": ["scheduler", "scheduler_multi_start"], "publisher::queue": ["publisher"]}
-ALL_SCENARIOS = ["future_poll", "future_await", "future_compete", "mutex", "mutex_window", "queue", "pool", "scheduler", "scheduler_multi_start", "publisher",
+ALL_SCENARIOS = ["future_poll", "future_await", "future_compete", "mutex", "mutex_window", "queue", "pool", "pool_double_stop", "scheduler", "scheduler_multi_start", "publisher",
                  "storage", "generator", "signal", "shared"]
 
 
@@ -118,7 +118,7 @@ class C03(Spec):
         return ["c03_current_orders", "c03_no_consume", "c03_lock_tables", "c03_lock_tables_cover", "c03_mutex_no_touch_after_publish",
                 "c03_walk_reads_next_before_resume", "c03_unlock_unlinks_before_resume", "c03_final_resolve_before_destroy",
                 "c03_build_queue_acquires_before_queue", "c03_lock_programs_disciplined", "c03_lock_programs_cover",
-                "c03_lock_programs_classes",
+                "c03_lock_programs_classes", "c03_set_constructs_before_state",
                 "c03_awaiter_no_touch_after_publish", "c03_sites_accounted", "c03_rmw_shapes", "c03_tracer_ref_before_publish"]
 
     def prebuild(self):
@@ -209,6 +209,8 @@ class C03(Spec):
                 scenarios += CLASS_SCENARIOS.get(cls, [])
         if broken & {"c03_mutex_no_touch_after_publish", "c03_unlock_unlinks_before_resume"}:
             found += self._baton_search("c07")
+        if "c03_set_constructs_before_state" in broken:
+            found += self._baton_search("c01")
         if broken & {"c03_walk_reads_next_before_resume", "c03_final_resolve_before_destroy", "c03_awaiter_no_touch_after_publish"}:
             found += self._baton_search("c02")
         if "c03_build_queue_acquires_before_queue" in broken:
